@@ -27,13 +27,13 @@ func die(code int, f string, a ...interface{}) {
 
 func main() {
 	if len(os.Args) < 2 {
-		die(2, "usage: vh <run|dump> ...")
+		die(70, "usage: vh <run|dump> ...")
 	}
 	switch os.Args[1] {
 	case "run":
 		cmdRun(os.Args[2:])
 	default:
-		die(2, "unknown command %s", os.Args[1])
+		die(70, "unknown command %s", os.Args[1])
 	}
 }
 
@@ -52,7 +52,7 @@ type traceWriter struct {
 func (t *traceWriter) emit(v interface{}) {
 	b, err := json.Marshal(v)
 	if err != nil {
-		die(2, "marshal: %v", err)
+		die(70, "marshal: %v", err)
 	}
 	t.w.Write(b)
 	t.w.WriteByte('\n')
@@ -69,32 +69,32 @@ func cmdRun(args []string) {
 	obsEvery := fs.Bool("obs-all", true, "observe after every block")
 	fs.Parse(args)
 	if *scn == "" || *out == "" || *work == "" {
-		die(2, "run: -scenario, -out and -work are required")
+		die(70, "run: -scenario, -out and -work are required")
 	}
 	os.MkdirAll(*work, 0777)
 	run.InitEnv(*work)
 	s, err := gen.Load(*scn)
 	if err != nil {
-		die(2, "%v", err)
+		die(70, "%v", err)
 	}
 	var ctl Control
 	if len(s.Control) > 0 {
 		if err := json.Unmarshal(s.Control, &ctl); err != nil {
-			die(2, "control: %v", err)
+			die(70, "control: %v", err)
 		}
 	}
 	c, err := gen.Build(s)
 	if err != nil {
-		die(2, "build: %v", err)
+		die(70, "build: %v", err)
 	}
 	r, err := run.New(c, filepath.Join(*work, "db", "pegnet"))
 	if err != nil {
-		die(2, "runner: %v", err)
+		die(70, "runner: %v", err)
 	}
 	r.Wal = ctl.Wal
 	f, err := os.Create(*out)
 	if err != nil {
-		die(2, "%v", err)
+		die(70, "%v", err)
 	}
 	tw := &traceWriter{w: bufio.NewWriterSize(f, 1<<20), f: f}
 	defer f.Close()
@@ -127,7 +127,7 @@ func cmdRun(args []string) {
 		res := r.Advance(h, *timeout)
 		if !res.OK {
 			kind := "Timeout"
-			code := 2
+			code := 70
 			if res.Wedge {
 				kind, code = "Wedge", 4
 			} else if res.Dead {
@@ -139,12 +139,12 @@ func cmdRun(args []string) {
 		if *obsEvery {
 			o, err := r.Observe(h)
 			if err != nil {
-				die(2, "observe %d: %v", h, err)
+				die(70, "observe %d: %v", h, err)
 			}
 			if dumpAt[h] {
 				d, err := r.Dump()
 				if err != nil {
-					die(2, "dump: %v", err)
+					die(70, "dump: %v", err)
 				}
 				o.Dump = proj.TableDigests(d)
 			}
@@ -152,7 +152,7 @@ func cmdRun(args []string) {
 		}
 		if restart[h] {
 			if err := r.StopNode(); err != nil {
-				die(2, "stop: %v", err)
+				die(70, "stop: %v", err)
 			}
 			if err := r.StartNode(); err != nil {
 				tw.emit(map[string]interface{}{"ev": "Refused", "h": h, "err": err.Error()})
@@ -163,7 +163,7 @@ func cmdRun(args []string) {
 	}
 	d, err := r.Dump()
 	if err != nil {
-		die(2, "dump: %v", err)
+		die(70, "dump: %v", err)
 	}
 	if *dumpOut != "" {
 		ioutil.WriteFile(*dumpOut, []byte(d), 0666)
